@@ -433,7 +433,8 @@ Record bdir := mkB {
   cd : option cdata;          (* meson-private/coredata.dat *)
   cl : option sdict;          (* meson-private/cmd_line.txt, [options] *)
   intro : option store }.     (* meson-info/intro-buildoptions.json: written from this store - every
-                                 option with its stored value and (mintro._list_buildoptions) every
+                                 option with its effective value (get_value_for: the stored value, or the
+                                 parent's value when it yields) and (mintro._list_buildoptions) every
                                  augment under its subproject-qualified name with the overriding value;
                                  the projection to names is done by harness/check_C08.py:canon_model *)
 
